@@ -236,25 +236,53 @@ def fingerprint(relpath, names):
     return out
 
 
+def raised_in_repo(exc):
+    """the /repo frame in which (or below which, inside a library it called) the exception was raised, if the raise
+    happened underneath implementation code rather than in the harness or in a harness callback; else None"""
+    import traceback
+    tb = traceback.extract_tb(exc.__traceback__)
+    last_repo = max([i for i, f in enumerate(tb) if f.filename.startswith(REPO + os.sep)], default=-1)
+    last_verif = max([i for i, f in enumerate(tb) if f.filename.startswith(VERIF + os.sep)], default=-1)
+    if last_repo > last_verif:
+        return tb[last_repo], (tb[last_verif] if last_verif >= 0 else None)
+    return None
+
+
+class _Neutral(float):
+    """stands for any field of an oracle's observation when the implementation raised instead of answering"""
+    def __iter__(self):
+        return iter(())
+
+    def __len__(self):
+        return 0
+
+    def __getitem__(self, k):
+        return _Neutral(0.0)
+
+
+class ExcObs(dict):
+    """observation of an oracle whose implementation call raised: every field the call site may read is neutral (0 / empty)"""
+    def __missing__(self, key):
+        return _Neutral(0.0)
+
+
 def safe_oracle(fn):
     """an oracle evaluates the property on the IMPLEMENTATION; if the implementation raises while doing what the
     property says it can do, that is a failing input (reported with the exception), not a harness crash"""
     import functools
-    import traceback
 
     @functools.wraps(fn)
     def wrapper(args):
         try:
             return fn(args)
         except Exception as e:  # noqa
-            tb = traceback.extract_tb(e.__traceback__)
-            where = [f for f in tb if f.filename.startswith(REPO)]
+            where = raised_in_repo(e)
             if not where:
                 raise
-            last = where[-1]
+            last = where[0]
             text = "implementation raised %s: %s (at %s:%d in %s)" % (
                 type(e).__name__, str(e)[:200], os.path.relpath(last.filename, REPO), last.lineno, last.name)
-            return False, {"exception": type(e).__name__, "message": str(e)[:300]}, {"exception": None}, text
+            return False, ExcObs({"exception": type(e).__name__, "message": str(e)[:300]}), {"exception": None}, text
     return wrapper
 
 
@@ -382,7 +410,9 @@ class Ctx:
     def finish(self):
         pid = self.pid
         wall = time.time() - self.t0
-        os.makedirs(os.path.join(VERIF, "evidence"), exist_ok=True)
+        # runs against a scratch tree (VERIF_REPO set: seeded-change trials) must not overwrite the evidence of /repo
+        evdir = os.path.join(VERIF, "evidence") if REPO == "/repo" else os.path.join(VERIF, "replays", "scratch-evidence")
+        os.makedirs(evdir, exist_ok=True)
         os.makedirs(os.path.join(VERIF, "replays"), exist_ok=True)
         violations = []
         for n, (sig, oracle, args, obs, req, text) in enumerate(self.oracle_failures):
@@ -435,7 +465,7 @@ class Ctx:
         ev = {"property_id": pid, "tier": self.tier, "seed": int(self.seed), "level": "proof",
               "coverage": cov, "assumptions": self.assumptions, "wall_s": round(wall, 2),
               "violations": len(violations)}
-        with open(os.path.join(VERIF, "evidence", pid + ".json"), "w") as f:
+        with open(os.path.join(evdir, pid + ".json"), "w") as f:
             json.dump(jsonable(ev), f, indent=1)
 
         for sig, text in sorted(self.known_hits.items()):
